@@ -374,7 +374,10 @@ func TestVerifC16(t *testing.T) {
 		f := all[i]
 		txt := lcRead(f)
 		canonical := strings.TrimSuffix(strings.TrimSuffix(f, ".txt"), ".header")
-		rec.nm("lic", l, txt, canonical, true, "", f+"/original")
+		// confidence 1.0 is owed only when the normalised query IS the registered value (Apache-2.0.txt carries an
+		// appendix behind its END OF TERMS marker that the archive trims)
+		same := lcNorm(txt) == licenseclassifier.VerifInner(l).VerifValue(strings.TrimSuffix(f, ".txt"))
+		rec.nm("lic", l, txt, canonical, same, "", f+"/original")
 		vs := lcVariants(rng, txt)
 		for _, vn := range variants {
 			if v, ok := vs[vn]; ok {
